@@ -61,11 +61,12 @@ PROPS = {
     "C03": dict(
         title="NTT120 transform is an exact, invertible negacyclic transform on all 64-bit data",
         module="SpqProofs.Properties.C03",
-        gen=["q120ntt"],
-        streams=dict(quick=[("qn_tables", "plain"), ("qn_ntt", "plain"), ("md_ntt", "plain")],
-                     thorough=[("qn_tables", "plain"), ("qn_ntt", "plain"), ("qn_stages", "plain"), ("md_ntt", "plain")]),
+        extra_modules=["SpqProofs.Properties.C03Mod"],
+        gen=["q120ntt", "q120"],
+        streams=dict(quick=[("qn_tables", "plain"), ("qn_ntt", "plain"), ("md_ntt", "plain"), ("mn_model", "plain")],
+                     thorough=[("qn_tables", "plain"), ("qn_ntt", "plain"), ("qn_stages", "plain"), ("md_ntt", "plain"), ("mn_model", "plain")]),
         proved="mixed level-by-level/block schedule = plain level schedule for every split; under a kernel-checked no-wrap certificate on the metadata extracted from the live precomputation, every output lane equals the exact transform in ZMod q_j for every 64-bit input, n = 2^k <= 2^16; intt(ntt x) = x mod q_j; linearity; output j = evaluation at w^(2 brev(j)+1); pointwise products invert to the negacyclic convolution",
-        not_proved="module-level dft/idft (int64 -> residues -> CRT lift) is covered by the md_ntt stream with an exact int64/int128 oracle and by the C10 conversion theorems, not yet composed into one theorem; the 4 AVX2 lanes are modelled as 4 independent scalar lanes (tied by the streams)",
+        not_proved="module level now proved (Properties/C03Mod.lean, model Spq.ModuleNtt tied bit-exactly by stream mn_model): ntt120 vec_znx_dft -> vec_znx_idft / _tmp_a / in place returns every int64 limb vector exactly, zero-extended or truncated, for every k <= 16, limb counts and strides (ntt120_dft_idft_roundtrip, _tmp_a_, _inplace_); in place = out of place for any tables and buffer content; the DFT limb is the vector of evaluations mod each prime and products in DFT space lift to the exact negacyclic product whenever it fits the centred range (ntt120_dft_product_is_negacyclic). Remaining: the 4 AVX2 lanes are modelled as 4 independent scalar lanes (tied by the streams); the NTT120 module has no svp/vmp entries, so the product theorem is not attached to an API call; _tmp_a with res == a_dft and the content of tmp after the call are outside the model",
         level_text="Lean 4 theorems (refinement to the exact ZMod transform, round trip, evaluation and convolution) over a model whose per-level metadata is regenerated from the live precomputation every run; raw-lane bit-exact correspondence for n = 1..65536 on worst-case lane patterns",
         design_ref="DESIGN.md §5 C03",
         technique="Lean 4 proof (level induction, ZMod refinement) + kernel-decided certificate on regenerated metadata + correspondence",
@@ -210,8 +211,8 @@ PROPS = {
     "C13": dict(
         title="Supported in-place calls give the same result as out-of-place calls",
         module="SpqProofs.Properties.C13",
-        streams=dict(quick=[("vz_box", "plain"), ("kz_probe", "plain"), ("vz_norm", "plain"), ("md_prod", "plain"), ("alias_mul", "plain"), ("md_prog", "plain"), ("md_ntt", "plain")],
-                     thorough=[("vz_box", "plain"), ("kz_probe", "plain"), ("vz_norm", "plain"), ("md_prod", "plain"), ("alias_mul", "plain"), ("md_prog", "plain"), ("md_ntt", "plain")]),
+        streams=dict(quick=[("vz_box", "plain"), ("kz_probe", "plain"), ("vz_norm", "plain"), ("md_prod", "plain"), ("alias_mul", "plain"), ("md_prog", "plain"), ("md_ntt", "plain"), ("mn_model", "plain")],
+                     thorough=[("vz_box", "plain"), ("kz_probe", "plain"), ("vz_norm", "plain"), ("md_prod", "plain"), ("alias_mul", "plain"), ("md_prog", "plain"), ("md_ntt", "plain"), ("mn_model", "plain")]),
         proved="call-independence theorems: an aliased call (res==a or res==b, same stride) and a call with separate buffers on the same source data give identical output cells, for add/sub/copy/negate/rotate/automorphism and the big variants, all limb counts (res_size != aliased size included)",
         not_proved="the inverse DFT in place and pointwise products with r==a are float kernels: covered by the module-level streams (bit-exact), theorem staged with the FFT model",
         level_text="Lean 4 theorems: aliased call = separate-buffer call on identical data for every shape; in-place kernels tied to the real code by the exhaustive probe stream",
@@ -255,8 +256,8 @@ PROPS = {
     "C18": dict(
         title="Read-only operands are never modified",
         module="SpqProofs.Properties.C18",
-        streams=dict(quick=[("vz_box", "plain"), ("vz_norm", "plain"), ("md_prod", "plain"), ("md_vmp", "plain"), ("md_ntt", "plain")],
-                     thorough=[("vz_box", "plain"), ("vz_norm", "plain"), ("md_prod", "plain"), ("md_vmp", "plain"), ("md_ntt", "plain")]),
+        streams=dict(quick=[("vz_box", "plain"), ("vz_norm", "plain"), ("md_prod", "plain"), ("md_vmp", "plain"), ("md_ntt", "plain"), ("mn_model", "plain")],
+                     thorough=[("vz_box", "plain"), ("vz_norm", "plain"), ("md_prod", "plain"), ("md_vmp", "plain"), ("md_ntt", "plain"), ("mn_model", "plain")]),
         proved="unconditional frame theorems: only the nn cells of the first rsz output limbs can change (any offsets, strides, overlap); hence every source cell not aliased with the output, including stride padding, is unchanged",
         not_proved="module tables / prepared objects of the DFT, SVP and VMP paths are covered by the module-level streams (byte snapshots), not yet by theorems",
         level_text="Lean 4 frame theorems for every vec_znx operation with no hypotheses on offsets/strides; whole-arena byte comparison against the real code",
